@@ -422,6 +422,17 @@ pub fn run(ctx: &mut Ctx) {
         check_one(ctx, "matrix", idx, &p);
     }
     if !ctx.slow_tool {
+        // sections with more than 255 entries (both bytes of the counts in use)
+        for (i, n) in [256usize, 257, 300, 1000].iter().enumerate() {
+            for sec in 0..4usize {
+                let idx = (i * 4 + sec) as u64;
+                if ctx.take("many", idx) {
+                    let p = super::c02::many_entries(*n, sec, idx);
+                    ctx.add("packets_with_more_than_255_entries_in_a_section", 1);
+                    check_one(ctx, "many", idx, &p);
+                }
+            }
+        }
         // long messages (sparse capacities)
         for idx in 0..tier.pick(80u64, 3000u64) {
             if !ctx.take("long", idx) {
